@@ -17,11 +17,11 @@ import (
 //   01 (270) >= 01 (260) => 09 > 04 => found!
 
 func Int(n int) Key {
-	return Int32(int32(n))
+	return Int64(int64(n))
 }
 
 func IntString(s string) (Key, error) {
-	return Int32String(s)
+	return Int64String(s)
 }
 
 func Int64(n int64) Key {
